@@ -36,7 +36,17 @@ var c07Contexts = []c07ctx{
 var c07Closed = map[string]bool{"1 + ;": true, "$a = ;": true, "=> 1 ;": true, "1 1 ;": true, "new ;": true, "echo , ;": true, "$a = = 1 ;": true, "$a -> ;": true,
 	"__halt_compiler ( ;": true, "__halt_compiler ;": true, "__halt_compiler ( ) x ;": true, "<<<A\nx\nA\n 1 ;": true, "\"a $b \" 1 ;": true}
 
-var c07Menu = []string{"__halt_compiler ( ;", "__halt_compiler ;", "__halt_compiler ( ) x ;", "<<<A\nx\nA\n 1 ;", "\"a $b \" 1 ;", "1 + ;", "$a = ;", "foo ( ;", ")", "if ( ;", "class { }", "$a -> ;", "function ( ;", "]", "=> 1 ;", "1 1 ;", "$a [ ;", "new ;", "echo , ;", "$a = = 1 ;", "} }"}
+// a lone closing bracket opens nothing, and yacc's recovery discards it as the offending token; a lone `}` is such a token
+// only where no scope is open (top level) — elsewhere it closes the context's own block
+func c07IsClosed(m string, ctx c07ctx) bool {
+	return c07Closed[m] || m == ")" || m == "]" || (m == "}" && ctx.name == "top level")
+}
+
+// statements that push and pop the scanner's mode stack
+var c07ModeForms = []string{"\"{$a}\" ;", "\"${a}\" ;", "\"$a[0]\" ;", "\"$a->b\" ;", "\"{$a[\"{$b}\"]}\" ;", "`{$a}` ;", "<<<A\n{$a}\nA\n ;", "<<<A\n$a[0] ${b}\nA\n ;",
+	"$a -> b ;", "{ }", "{ { } }", "$f = function ( ) { \"{$a}\" ; } ;", "\"{${a}}\" ;", "\"${a[0]}\" ;"}
+
+var c07Menu = []string{"__halt_compiler ( ;", "__halt_compiler ;", "__halt_compiler ( ) x ;", "<<<A\nx\nA\n 1 ;", "\"a $b \" 1 ;", "1 + ;", "$a = ;", "foo ( ;", ")", "if ( ;", "class { }", "$a -> ;", "function ( ;", "]", "=> 1 ;", "1 1 ;", "$a [ ;", "new ;", "echo , ;", "$a = = 1 ;", "} }", "}"}
 
 // levelStmts: the statement list in which S1…Sk and M stand (innermost "Stmts" along the first statements).
 func levelStmts(root ast.Vertex, depth int) ([]ast.Vertex, bool) {
@@ -158,7 +168,7 @@ func c07One(c *core.Ctx, cs c07Case) {
 	c.Stat("recovered", 1)
 	c.NontrivialH(core.Hash(cs.Ver + string(cs.Src)))
 	c07Print(c, cs.srcCase, res)
-	if c07Closed[cs.M] && len(cs.After) >= 2 {
+	if c07IsClosed(cs.M, ctx) && len(cs.After) >= 2 {
 		// parsing continues: the last well-formed statement after the malformed one is in the list
 		last := cs.After[len(cs.After)-1]
 		alone := drive.Parse([]byte("<?php "+ctx.open+last+ctx.close), v, true)
@@ -312,6 +322,9 @@ func c07Run(c *core.Ctx) {
 			for _, l := range lists {
 				for pos := 0; pos <= len(l); pos++ {
 					for _, m := range c07Menu {
+						if m == "}" && ctx.name != "top level" {
+							continue // it would close the context's own block: not a malformed statement of this list
+						}
 						if !c.Next() {
 							continue
 						}
@@ -321,6 +334,36 @@ func c07Run(c *core.Ctx) {
 						c07One(c, cs)
 						c.Sample(cs)
 					}
+				}
+			}
+		}
+		// the scanner keeps a stack of modes (blocks, interpolation, heredocs, property names): statements that push and
+		// pop it, alone and in pairs, before every malformed statement after which parsing must continue, followed by
+		// two plain statements — recovery has to find the statement level again whatever the stack has been through
+		for ci, ctx := range c07Contexts {
+			var befores [][]string
+			for _, a := range c07ModeForms {
+				befores = append(befores, []string{a})
+				for _, b := range c07ModeForms {
+					befores = append(befores, []string{a, b})
+				}
+			}
+			for _, a := range forms {
+				for _, b := range c07ModeForms {
+					befores = append(befores, []string{a, b}, []string{b, a})
+				}
+			}
+			for _, l := range befores {
+				for _, m := range c07Menu {
+					if !c07IsClosed(m, ctx) || !c.Next() {
+						continue
+					}
+					after := []string{"$x = 1 ;", "$y ;"}
+					parts := append(append(append([]string{}, l...), m), after...)
+					src := "<?php " + ctx.open + strings.Join(parts, " ") + ctx.close
+					cs := c07Case{srcCase: mkCase(src, f.V, "malformed statement after statements that use the scanner's mode stack, in "+ctx.name), Ctx: ci, Before: l, After: after, M: m}
+					c.Stat("mode_stack_lists", 1)
+					c07One(c, cs)
 				}
 			}
 		}
